@@ -1,5 +1,154 @@
-/- C06 — theorems under construction. -/
-import BEI.Model.App
+/-
+  C06 — Contexts are evaluated in descending priority whatever the insertion history.
+-/
+import BEI.Proofs.AppInv
 namespace BEI.Props.C06
-theorem placeholder_true : True := trivial
+open BEI
+
+/-- (1) for every reachable application state — any order of registration, insertion, removal, re-insertion, rebuild and
+    despawn over any entities, issued between frames, through commands or from observers, interleaved with any input
+    frames — the registry is ordered by descending priority -/
+theorem registry_sorted (su : Setup) (st : AppState) (h : Reachable su st) : SortedDesc st.reg :=
+  reachable_pred su (fun _ reg => SortedDesc reg) (sorted_appPred su) List.Pairwise.nil st h
+
+/-- (2) the per-frame update walks the registry in list order: the groups of a prefix are evaluated — and consume
+    input — before those of the rest, which see only what is left in the reader -/
+theorem update_in_list_order (t : Tick) : ∀ (a b : Registry) (r : Reader),
+    Registry.update r t (a ++ b) =
+      match Registry.update r t a with
+      | none => none
+      | some oa =>
+        match Registry.update oa.reader t b with
+        | none => none
+        | some ob => some { reg := oa.reg ++ ob.reg, reader := ob.reader,
+                            deliveries := oa.deliveries ++ ob.deliveries, log := oa.log ++ ob.log } := by
+  intro a
+  induction a with
+  | nil =>
+    intro b r
+    simp only [List.nil_append, Registry.update]
+    cases Registry.update r t b <;> simp
+  | cons g rest ih =>
+    intro b r
+    cases g with
+    | exclusive ty is =>
+      simp only [List.cons_append, Registry.update]
+      cases hex : Registry.updateExclusive r t is with
+      | none => rfl
+      | some x =>
+        obtain ⟨is', r', dl, lg⟩ := x
+        simp only
+        rw [ih]
+        cases Registry.update r' t rest with
+        | none => rfl
+        | some oa =>
+          simp only
+          cases Registry.update oa.reader t b with
+          | none => rfl
+          | some ob => simp [List.append_assoc]
+    | shared ty es ctx =>
+      simp only [List.cons_append, Registry.update]
+      cases ctx.update r t es with
+      | none => rfl
+      | some oc =>
+        simp only
+        rw [ih]
+        cases Registry.update oc.reader t rest with
+        | none => rfl
+        | some oa =>
+          simp only
+          cases Registry.update oa.reader t b with
+          | none => rfl
+          | some ob => simp [List.append_assoc]
+
+theorem lt_length_of_getElem? {α : Type _} (l : List α) (i : Nat) (x : α) (h : l[i]? = some x) : i < l.length := by
+  rcases Nat.lt_or_ge i l.length with h' | h'
+  · exact h'
+  · simp [List.getElem?_eq_none h'] at h
+
+theorem split_at {α : Type _} : ∀ (l : List α) (i : Nat) (x : α), l[i]? = some x → l = l.take i ++ x :: l.drop (i + 1) := by
+  intro l
+  induction l with
+  | nil => intro i x h; simp at h
+  | cons y ys ih =>
+    intro i x h
+    cases i with
+    | zero => simp at h; subst h; simp
+    | succ n =>
+      simp only [List.getElem?_cons_succ] at h
+      simp only [List.take_succ_cons, List.drop_succ_cons, List.cons_append]
+      rw [← ih n x h]
+
+/-- (3) in a sorted registry a strictly higher priority type sits strictly earlier in the evaluation order -/
+theorem higher_priority_earlier (reg : Registry) (h : SortedDesc reg) (i j : Nat) (gi gj : Group)
+    (hi : reg[i]? = some gi) (hj : reg[j]? = some gj) (hp : gi.ty.priority > gj.ty.priority) : i < j := by
+  rcases Nat.lt_or_ge i j with hlt | hle
+  · exact hlt
+  · exfalso
+    rcases Nat.lt_or_eq_of_le hle with hlt | heq
+    · have hjl := lt_length_of_getElem? _ _ _ hj
+      have hil := lt_length_of_getElem? _ _ _ hi
+      have := List.pairwise_iff_getElem.mp h j i hjl hil hlt
+      rw [List.getElem?_eq_getElem hil] at hi
+      rw [List.getElem?_eq_getElem hjl] at hj
+      cases hi; cases hj
+      omega
+    · subst heq
+      rw [hi] at hj
+      cases hj
+      omega
+
+/-- (3') hence the registry splits as `before ++ higher :: between ++ lower :: after`: by (2) the higher-priority
+    context is evaluated, and consumes, first; the lower one reads the reader it leaves behind (C05) -/
+theorem split_by_priority (reg : Registry) (h : SortedDesc reg) (i j : Nat) (gi gj : Group)
+    (hi : reg[i]? = some gi) (hj : reg[j]? = some gj) (hp : gi.ty.priority > gj.ty.priority) :
+    ∃ pre mid post, reg = pre ++ gi :: mid ++ gj :: post := by
+  have hlt := higher_priority_earlier reg h i j gi gj hi hj hp
+  have h1 := split_at reg i gi hi
+  have hidx : (reg.drop (i + 1))[j - i - 1]? = some gj := by
+    rw [List.getElem?_drop]
+    have : i + 1 + (j - i - 1) = j := by omega
+    rw [this]; exact hj
+  have h2 := split_at (reg.drop (i + 1)) (j - i - 1) gj hidx
+  refine ⟨reg.take i, (reg.drop (i + 1)).take (j - i - 1), (reg.drop (i + 1)).drop (j - i - 1 + 1), ?_⟩
+  calc reg = reg.take i ++ gi :: reg.drop (i + 1) := h1
+    _ = reg.take i ++ gi :: ((reg.drop (i + 1)).take (j - i - 1) ++ gj :: (reg.drop (i + 1)).drop (j - i - 1 + 1)) := by
+        rw [← h2]
+    _ = _ := by simp
+
+/-- with distinct priorities the insertion point used by `add` is the only one that keeps the registry sorted, so the
+    model's choice coincides with whatever a correct `binary_search_by_key` returns -/
+theorem insertion_point_unique (reg : Registry) (g : Group) (n : Nat) (hn : n ≤ reg.length)
+    (hdist : ∀ x ∈ reg, x.ty.priority ≠ g.ty.priority)
+    (hs : SortedDesc (reg.take n ++ [g] ++ reg.drop n)) : n = reg.insertPos g.ty.priority := by
+  unfold Registry.insertPos
+  unfold SortedDesc at hs
+  rw [List.append_assoc, List.pairwise_append] at hs
+  obtain ⟨_, h2, h3⟩ := hs
+  have h2' : List.Pairwise (fun a b : Group => a.ty.priority ≥ b.ty.priority) (g :: reg.drop n) := h2
+  have hbefore : ∀ x ∈ reg.take n, x.ty.priority > g.ty.priority := by
+    intro x hx
+    have := h3 x hx g (by simp)
+    have := hdist x (List.mem_of_mem_take hx)
+    omega
+  have hafter : ∀ x ∈ reg.drop n, x.ty.priority < g.ty.priority := by
+    intro x hx
+    have := (List.pairwise_cons.mp h2').1 x hx
+    have := hdist x (List.mem_of_mem_drop hx)
+    omega
+  have hsplit : reg.takeWhile (fun x => decide (x.ty.priority > g.ty.priority))
+      = (reg.take n ++ reg.drop n).takeWhile (fun x => decide (x.ty.priority > g.ty.priority)) := by
+    rw [List.take_append_drop]
+  rw [hsplit, List.takeWhile_append_of_pos (by intro a ha; simpa using hbefore a ha)]
+  cases hd : reg.drop n with
+  | nil => simp [List.length_take]; omega
+  | cons y ys =>
+    have hy := hafter y (by rw [hd]; simp)
+    have hny : ¬ ((fun x : Group => decide (x.ty.priority > g.ty.priority)) y = true) := by simp; omega
+    have htw : List.takeWhile (fun x : Group => decide (x.ty.priority > g.ty.priority)) (y :: ys) = [] :=
+      List.takeWhile_cons_of_neg hny
+    rw [htw]
+    simp [List.length_take]
+    omega
+
 end BEI.Props.C06
